@@ -100,6 +100,9 @@ func body(c *hk.Ctx) {
 			// delay: anything but the last 10% before the timeout (an oracle must not encode
 			// timing to the millisecond); late = 110%..300% of the timeout
 			d := c.F(900, "delay") * cs.TimeoutS // ms, < 90% of timeout
+			if c.F(4, "quick-answer") == 3 {
+				d = c.F(3, "quick-delay") // an executor on a fast path: the answer may overtake the return of the send call
+			}
 			if b == bLate {
 				d = cs.TimeoutS*1100 + c.F(1900, "late")*cs.TimeoutS
 			}
@@ -164,6 +167,13 @@ func body(c *hk.Ctx) {
 		d := time.Duration(cs.DelayMs[ti]) * time.Millisecond
 		c.Count("fault.behaviour." + bNames[b])
 		c.Logf("send cmd=%d tgt=%d behaviour=%s delay=%v t=%v", k, t, bNames[b], d, c.S.Now())
+		// the send is an HTTP round trip to the master: the message is on its way half way through,
+		// the call returns only at the end
+		if lat := []time.Duration{0, 0, 2 * time.Millisecond, 40 * time.Millisecond}[c.F(4, "send-latency")]; lat > 0 {
+			c.Count("fault.slow_send")
+			simrt.Sleep(lat / 2)
+			defer simrt.Sleep(lat / 2)
+		}
 		switch b {
 		case bReply:
 			deliver(d, mkReply(k, t, cmd.GetId(), "", true), t, "reply")
